@@ -126,6 +126,8 @@ def check (input impl : String) : Verdict :=
       let parts := rest.map words
       let rs := parts.mapM (fun f => match f with
         | [p, lo, hi, e] => do pure ((← p.toInt?), (← lo.toInt?), (← hi.toInt?), boolOf e)
+        -- a fifth field says the metadata response carried an error for the partition: it is assigned like any other
+        | [p, lo, hi, e, _] => do pure ((← p.toInt?), (← lo.toInt?), (← hi.toInt?), boolOf e)
         | _ => none)
       match rs with
       | none => { model := "bad-input" }
